@@ -161,6 +161,9 @@ func genPollEvent(t *rapid.T, at int64, sid string) event {
 	e.Clients = rapid.SampledFrom([]int{0, 0, 8, 16, 64}).Draw(t, "clients")
 	e.Pattern = strp("")
 	e.Door = rapid.SampledFrom([]string{"ipc", "http"}).Draw(t, "pdoor")
+	if e.Door == "http" {
+		e.Chunked = rapid.IntRange(0, 3).Draw(t, "pchunked") == 0
+	}
 	switch rapid.IntRange(0, 5).Draw(t, "ansmode") {
 	case 0:
 		e.AnsMode = "never"
@@ -182,6 +185,9 @@ func genClientEvent(t *rapid.T, at int64, id int) event {
 	e := event{At: at, Kind: "client"}
 	e.NAT = rapid.SampledFrom(natWire).Draw(t, "cnat")
 	e.Door = rapid.SampledFrom([]string{"ipc", "post", "legacy", "amp"}).Draw(t, "cdoor")
+	if e.Door == "post" || e.Door == "legacy" {
+		e.Chunked = rapid.IntRange(0, 3).Draw(t, "cchunked") == 0
+	}
 	e.Offer = fmt.Sprintf("{\"type\":\"offer\",\"sdp\":\"client-%d\"}", id)
 	// most clients name no bridge or the default one; some name an unlisted or malformed
 	// fingerprint (they must be turned away without leaving anything behind)
